@@ -547,6 +547,9 @@ impl Locale {
             None => (base_key, PluralRuleType::Cardinal),
         };
 
+        // `_one`, `__other`, ...: what is left of the name is not a key, those are ordinary keys
+        Key::new(base_key)?;
+
         PluralForm::try_from_str(suffix).map(|form| (base_key, rule_type, form))
     }
 
